@@ -206,19 +206,7 @@ def _plane(model: Model, rep: Report) -> None:
     r4.check((not found2) or got2 == want2, site(getrange), getrange.qualname, "_getrange yields cells unless the box lies outside the index bounds (strict)", why=f"normalised continue-set is {sorted(got2)}")
 
     # ----------------------------------------------- R5-R7 (today: known findings)
-    r5 = rep.rule("C20-R5", "ROUNDING", "cell index of a coordinate is floor(v / gridsize) for negative coordinates too", 1)
-    dr = model.func(U + "drange")
-    ret = next((n for n in walk_no_nested(dr.node) if isinstance(n, ast.Return)), None)
-    trunc = []
-    if ret is not None and ret.value is not None:
-        for n in ast.walk(ret.value):
-            if isinstance(n, ast.BinOp) and isinstance(n.op, ast.FloorDiv) and isinstance(n.left, ast.Call) and (dotted(n.left.func) or "") == "int":
-                trunc.append(n)
-    if trunc:
-        for n in trunc[:1]:
-            r5.violation(site(dr, ret), dr.qualname, "int(v) // d", "int() truncates toward zero before the floor division: a box inside (-1, 0) gets an empty cell range and is never found")
-    else:
-        r5.ok(site(dr), dr.qualname, "no truncation before floor division in drange")
+    drange_rule(model, rep, "C20-R5")
     r6 = rep.rule("C20-R6", "REACH", "every live object is stored in at least one cell", 1)
     if found2 and early is not None:
         r6.violation(site(getrange, early), getrange.qualname, "early return for boxes outside the index bounds", "add() still registers the object in _objs/_seq, yet no cell holds it: find() can never return it although it counts as live")
@@ -232,3 +220,38 @@ def _plane(model: Model, rep: Report) -> None:
         r7.ok(site(remove), remove.qualname, "remove updates _seq")
     else:
         r7.violation(site(remove), remove.qualname, "remove leaves self._seq untouched", "add/remove/add of one object leaves it twice in _seq: iteration yields it twice")
+
+
+def drange_rule(model: Model, rep: Report, rid: str) -> None:
+    """Cells covering [v0, v1]: floor(v0 / d) .. floor(v1 / d) inclusive, for negative coordinates too."""
+    r5 = rep.rule(rid, "ROUNDING", "grid cells of an interval: floor(v0 / d) .. floor(v1 / d) inclusive (also for negative coordinates)", 1)
+    dr = model.func(U + "drange")
+    ret = next((n for n in walk_no_nested(dr.node) if isinstance(n, ast.Return)), None)
+    v0, v1, d = (Poly.var(x) for x in dr.params[:3])
+    se = SymEval(opaque_ok=False)
+    if ret is None or not (isinstance(ret.value, ast.Call) and (dotted(ret.value.func) or "") == "range" and len(ret.value.args) == 2):
+        r5.violation(site(dr), dr.qualname, "drange returns range(lower, upper)", "shape changed")
+        return
+    trunc = [n for n in ast.walk(ret.value) if isinstance(n, ast.BinOp) and isinstance(n.op, ast.FloorDiv) and isinstance(n.left, ast.Call) and (dotted(n.left.func) or "") == "int"]
+    if trunc:
+        r5.violation(site(dr, ret), dr.qualname, "int(v) // d", "int() truncates toward zero before the floor division: a box inside (-1, 0) gets an empty cell range and is never found")
+        return
+
+    def floordiv_of(e: ast.AST):
+        """e == floor(P) // d  -> P (polynomial), else None"""
+        if isinstance(e, ast.BinOp) and isinstance(e.op, ast.FloorDiv) and unparse(e.right) == dr.params[2] and isinstance(e.left, ast.Call) and (dotted(e.left.func) or "") in ("math.floor", "floor") and len(e.left.args) == 1:
+            try:
+                return se.expr(e.left.args[0], {})
+            except NotPolynomial:
+                return None
+        return None
+
+    lo, up = ret.value.args
+    plo = floordiv_of(lo)
+    ok_lo = plo is not None and plo == v0
+    pup = floordiv_of(up)
+    ok_up = pup is not None and pup == v1 + d
+    if not ok_up and isinstance(up, ast.BinOp) and isinstance(up.op, ast.Add) and isinstance(up.right, ast.Constant) and up.right.value == 1:
+        p2 = floordiv_of(up.left)
+        ok_up = p2 is not None and p2 == v1
+    r5.check(ok_lo and ok_up, site(dr, ret), dr.qualname, "range(floor(v0) // d, floor(v1 + d) // d)", why=f"returns `{unparse(ret.value)}`: the last (or first) cell of an interval is left out for some coordinates, so an object lying in it is never found")
